@@ -922,6 +922,7 @@ class Session:
         self.cache_seen = {}
         self.fwd_memo = {}
         self.cursors = []
+        self.z3_unknown = False
         self.cur_kw = {}
         self.unprintable = None
 
@@ -957,7 +958,14 @@ class Session:
         self.procs[pid] = p
         self.parent[pid] = parent
         if self.checks.get("pure"):
-            self.created[pid] = (fingerprint(p._loopir_proc), str(p))
+            self.created[pid] = (fingerprint(p._loopir_proc), self._safe_str(p))
+
+    @staticmethod
+    def _safe_str(p):
+        try:
+            return str(p)
+        except Exception as e:  # a malformed procedure (C04's business) that the printer rejects
+            return f"<unprintable {type(e).__name__}>"
 
     def callee_pool(self):
         return [k for k in self.procs if k in gen_prog.LIB_PROCS or k.startswith("s")] or list(gen_prog.LIB_PROCS)
@@ -1107,10 +1115,10 @@ class Session:
             p = self.procs[pid]
             self.probes.hit("pure_checked")
             if fingerprint(p._loopir_proc) != fp:
-                self.created[pid] = (fingerprint(p._loopir_proc), str(p))
+                self.created[pid] = (fingerprint(p._loopir_proc), self._safe_str(p))
                 self.violate("C07", "source-procedure-mutated", f"procedure {pid} changed structurally {when} {op}", op)
-            elif with_str and str(p) != st:
-                self.created[pid] = (fp, str(p))
+            elif with_str and self._safe_str(p) != st:
+                self.created[pid] = (fp, self._safe_str(p))
                 self.violate("C07", "source-procedure-prints-differently", f"str({pid}) changed {when} {op}", op)
 
     # -- one op ----------------------------------------------------------- #
@@ -1175,6 +1183,8 @@ class Session:
         else:
             out = self.faulted(name, call, fault, pid)
         self.unprintable = None
+        if _solver_unknown(out):
+            self.z3_unknown = True
         sig = self.outcome_sig(out)
         unprintable_now = bool(self.unprintable and out[0] == "ret")
         if unprintable_now and pid in self.tainted:
@@ -1583,6 +1593,7 @@ class Session:
             # z3 answered `unknown` in one of the two executions: outcome of an incomplete
             # external prover, not of forwarding (same rule as the retry oracle)
             self.probes.hit("implicit_explicit_skipped_solver_unknown")
+            self.z3_unknown = True
             return
         s1, s2 = self.outcome_sig(out), self.outcome_sig(out2)
         self.probes.hit("implicit_explicit_compared")
@@ -1658,6 +1669,7 @@ class Session:
             out3 = ("exc", e)
         s3 = self.outcome_sig(out3)
         if _solver_unknown(ref) or _solver_unknown(out3):
+            self.z3_unknown = True
             # z3 answered `unknown` (incomplete on div/mod queries, and not reproducibly so):
             # the outcome of an external incomplete prover, not of the call under test
             self.probes.hit("retry_skipped_solver_unknown")
@@ -1684,15 +1696,17 @@ class Session:
         p = self.procs[pid]
         kind = rec.get("kind", "find")
 
+        found = []
+
         def q():
             out = []
+            del found[:]
             if kind == "find":
                 for pat in ("for _ in _: _", "_ = _", "_ += _", "if _: _", "_: _"):
                     try:
                         cs = p.find(pat, many=True)
                         out.append(len(cs))
-                        for c in cs[:3]:
-                            self.remember_cursors([c])
+                        found.extend(cs[:3])
                     except Exception as e:  # SchedulingError: no match
                         out.append(type(e).__name__)
             elif kind == "nav":
@@ -1715,7 +1729,7 @@ class Session:
                     except Exception as e:
                         out.append(type(e).__name__)
             else:  # print
-                out.append(stable_hash(str(p)))
+                out.append(stable_hash(self._safe_str(p)))
                 out.append([str(a.name()) for a in p.args()])
                 try:
                     out.append(p.is_instr())
@@ -1727,6 +1741,8 @@ class Session:
         ref, n = self.crash.run(q)
         if ref[0] == "exc" and not isinstance(ref[1], Exception):
             raise ref[1]
+        if self.checks.get("pure"):
+            self.remember_cursors(list(found))  # snapshots are taken outside any injected run
         self.log.log("query", on=pid, kind=kind, o=ref[0], h=stable_hash(json_path(ref[1])) if ref[0] == "ret" else type(ref[1]).__name__)
         st = self.ops.setdefault("query", [0, 0])
         st[0 if ref[0] == "ret" else 1] += 1
@@ -1843,7 +1859,10 @@ class Session:
     def result(self):
         return {
             "violation": self.viol,
-            "digest": self.log.digest(),
+            # "~u": z3 answered `unknown` somewhere in this run.  Whether it does depends on z3-internal state
+            # that survives a fresh context (seen: the same query decided in one process and `unknown` in
+            # another), so such runs are not required to reproduce digest-for-digest (self-test skips them)
+            "digest": self.log.digest() + ("~u" if getattr(self, "z3_unknown", False) else ""),
             "n_events": self.log.n,
             "probes": dict(self.probes),
             "faults": self.faults,
